@@ -12,10 +12,11 @@
    Full statement kept for the record:
      forall mesh with affine cells, element of degree k, polynomial u of degree <= k solving the model problem,
        Dirichlet/Neumann split along facet sets:  the solve of condense(A, b, x=u_h, D=dofs) = u_h  (u_h the interpolant). *)
+From Coq Require Import String.
 From Coq Require Import List ZArith Bool Arith Ring.
 Import ListNotations.
 Require Import Base.C05_Np Model.C05_BC Model.C06_Galerkin Proofs.C05_CondenseProofs Proofs.C06_GalerkinProofs
-               Gen.C06Gen Dyn.C06Tie.
+               Base.C09_Poly Base.C09_PolyQ Proofs.C06_CompleteProofs Gen.C06Gen Gen.C06Complete Dyn.C06Tie.
 
 Definition is_ring {R} (o : ring_ops R) := ring_theory (r0 o) (r1 o) (radd o) (rmul o) (rsub o) (ropp o) (@eq R).
 
@@ -65,6 +66,14 @@ Proof.
 Qed.
 Print Assumptions C06_project_returns_function.
 
+(* Of the three ingredients the patch test needs beyond this algebra,
+     - polynomial completeness of the element is now PROVED (C06_elements_polynomially_complete, and for nodal elements
+       C06_nodal_interpolant_reproduces: the interpolant of a polynomial of the element's degree IS that polynomial);
+     - exactness of the quadrature rules on the reference cell is C08 / C02 (C02_assembled_reference_mass_close and the
+       C08 rule theorems);
+   what REMAINS unproved is Green's identity (that the exact polynomial solution satisfies the weak form cell by cell,
+   with the natural boundary terms) and its assembly over the mesh (affine change of variables per cell, cancellation of
+   the interior facet terms), plus SciPy's spsolve.  Hence the suffix _partial. *)
 (* patch test, algebraic part: any sparse system, any split; x carries the prescribed values of x*, x* satisfies the
    free rows, A_II nonsingular: the condensed solve, expanded, is x* *)
 Theorem C06_patch_test_algebra_partial :
@@ -78,6 +87,51 @@ Theorem C06_patch_test_algebra_partial :
     forall c, c < n -> vnth o (expand x I z) c = vnth o xstar c.
 Proof. exact (@patch_test_algebra). Qed.
 Print Assumptions C06_patch_test_algebra_partial.
+
+(* ---- polynomial completeness of the element spaces.  The exact basis polynomials are regenerated from the source on every
+   run (symbolic execution of lbasis); for each class the certificate is checked by polynomial identity.  Classes and
+   degrees k (total degree; for the tensor-product Lagrange elements also per-direction degree): *)
+Theorem C06_elements_polynomially_complete :
+  map (fun e => (ce_name e, ce_deg e)) gen_complete_total =
+    [("ElementLineP1", 1); ("ElementLineP2", 2); ("ElementTriP1", 1); ("ElementTriP2", 2); ("ElementTriP3", 3); ("ElementTriP4", 4);
+     ("ElementTetP1", 1); ("ElementTetP2", 2); ("ElementQuad1", 1); ("ElementQuad2", 2); ("ElementHex1", 1); ("ElementHex2", 2);
+     ("ElementLineMini", 1); ("ElementTriP1B", 1); ("ElementTriP2B", 2); ("ElementTetMini", 1); ("ElementTetCCR", 2);
+     ("ElementQuadS2", 2); ("ElementHexS2", 2); ("ElementWedge1", 1)]%string /\
+  map (fun e => (ce_name e, ce_deg e)) gen_complete_box =
+    [("ElementQuad1", 1); ("ElementQuad2", 2); ("ElementHex1", 1); ("ElementHex2", 2)]%string /\
+  (* every monomial of total degree <= k is a rational combination of the basis polynomials, at every point *)
+  (forall e, In e gen_complete_total -> forall m, length m = ce_dim e -> msum m <= ce_deg e -> in_span (ce_basis e) (pmono m)) /\
+  (* tensor-product elements: every monomial with each exponent <= k *)
+  (forall e, In e gen_complete_box -> forall m, length m = ce_dim e -> Forall (fun a => a <= ce_deg e) m -> in_span (ce_basis e) (pmono m)).
+Proof.
+  split; [vm_compute; reflexivity|]. split; [vm_compute; reflexivity|]. split.
+  - exact (complete_total_degree gen_complete_total gen_complete_total_complete gen_complete_total_flags).
+  - exact (complete_per_direction gen_complete_box gen_complete_box_complete gen_complete_box_flags).
+Qed.
+Print Assumptions C06_elements_polynomially_complete.
+
+(* nodal elements: the nodal interpolant  sum_i p(x_i) phi_i  of EVERY polynomial p of the element's degree is p itself
+   (x_i = the class's doflocs), at every rational point *)
+Theorem C06_nodal_interpolant_reproduces :
+  map (fun e => (ne_name e, ne_deg e, ne_box e)) gen_nodal =
+    [("ElementLineP1", 1, false); ("ElementLineP2", 2, false); ("ElementTriP1", 1, false); ("ElementTriP2", 2, false);
+     ("ElementTriP3", 3, false); ("ElementTriP4", 4, false); ("ElementTetP1", 1, false); ("ElementTetP2", 2, false);
+     ("ElementQuad1", 1, false); ("ElementQuad1", 1, true); ("ElementQuad2", 2, false); ("ElementQuad2", 2, true);
+     ("ElementHex1", 1, false); ("ElementHex1", 1, true); ("ElementHex2", 2, false); ("ElementHex2", 2, true);
+     ("ElementTetCCR", 2, false); ("ElementQuadS2", 2, false); ("ElementHexS2", 2, false); ("ElementWedge1", 1, false)]%string /\
+  forall e, In e gen_nodal -> forall p, poly_within e p ->
+  forall pt, QArith_base.Qeq (qeval (lincomb (nodal_values p (ne_locs e)) (ne_basis e)) pt) (qeval p pt).
+Proof. split; [vm_compute; reflexivity | exact (nodal_interpolant_is_identity gen_nodal gen_nodal_ok)]. Qed.
+Print Assumptions C06_nodal_interpolant_reproduces.
+
+(* non-vacuity: x^2 y on the cubic triangle is reproduced by its nodal values *)
+Example C06_instance_nodal :
+  exists e, In e gen_nodal /\ ne_name e = "ElementTriP3"%string /\ poly_within e [(QArith_base.Qmake 1 1, [2; 1])].
+Proof.
+  eexists. split; [do 4 right; left; reflexivity|]. split; [reflexivity|].
+  intros t [<-|[]]. split; [reflexivity | vm_compute; repeat constructor].
+Qed.
+Print Assumptions C06_instance_nodal.
 
 (* ---- non-vacuity: two "cells" sharing dof 1, two quadrature points, a composite (vector x scalar) element: shape [2; 1] *)
 Definition exB : fe Z :=
